@@ -3469,6 +3469,8 @@ class BSP:
         # Now build the complete lump.
         yield struct.pack('<i', len(models))
         for name in models:
+            if len(name) > 128:
+                raise ValueError(f'Detail prop model "{name}" exceeds 128 character limit')
             yield struct.pack('<128s', name.encode('ascii', 'surrogateescape'))
         yield struct.pack('<i', len(sprites))
         spr_format = struct.Struct('<8f')
